@@ -14,8 +14,13 @@ def StepOut.resp? : StepOut → Option Resp
   | .stop r _ _ => r
   | .crash => none
 
-theorem rebind_some (s : Stack) (r : Resp) : (rebind s r).isCrash = false ∧ (rebind s r).resp?.isSome = true := by
-  unfold rebind; simp only []; split <;> simp [StepOut.isCrash, StepOut.resp?]
+theorem rebind_some (s : Stack) (a : Nat) (r : Resp) : (rebind s a r).isCrash = false ∧ (rebind s a r).resp?.isSome = true := by
+  unfold rebind; simp only []
+  split
+  · simp [StepOut.isCrash, StepOut.resp?]
+  · split
+    · split <;> simp [StepOut.isCrash, StepOut.resp?]
+    · simp [StepOut.isCrash, StepOut.resp?]
 
 theorem digestResend_some (fx : Fixes) (s : Stack) (a : Nat) (r : Resp) (re : TOut) :
     (digestResend fx s a r re).isCrash = false ∧ (digestResend fx s a r re).resp?.isSome = true := by
@@ -24,7 +29,7 @@ theorem digestResend_some (fx : Fixes) (s : Stack) (a : Nat) (r : Resp) (re : TO
   | resp h =>
     simp only [digestResend]
     split
-    · exact rebind_some _ _
+    · exact rebind_some _ _ _
     · simp [StepOut.isCrash, StepOut.resp?]
 
 /-- On a non-nil response the repaired digest middleware never dereferences nil. -/
@@ -296,9 +301,13 @@ theorem download_step (s : Stack) (a : Nat) (r : Resp) :
     · exact Step.refl _
     · split
       · exact Step.raise _ _
-      · split
-        · exact Step.raise _ _
-        · exact Step.refl _
+      · exact Step.refl _
+
+/-- An error returned on top of what is recorded: the recorded one wins, else the new one is seen. -/
+theorem Step.orE_raise (cur : Option Err) (e : Err) : Step cur (orE cur (some e)) [e] := by
+  cases cur with
+  | none => exact Step.raise _ _
+  | some x => exact Or.inl ⟨rfl, Or.inr (by simp)⟩
 
 theorem parseBody_err (i : BindIn) :
     (∀ e, i.respErr = some e → ((parseBody i).err = none ∨ (parseBody i).err = some e) ∧ (parseBody i).respErr = some e) ∧
@@ -456,7 +465,7 @@ theorem parseBody_ret_respErr (i : BindIn) (e : Err) (h : (parseBody i).err = so
     · rw [h1] at h; cases h
     · rw [h1] at h; cases h; simp [h2]
 
-theorem rebind_step (s : Stack) (r : Resp) : Step r.err (rebind s r).seen (raisedOf (rebind s r).evs) := by
+theorem rebind_step (s : Stack) (a : Nat) (r : Resp) : Step r.err (rebind s a r).seen (raisedOf (rebind s a r).evs) := by
   have s1 := autoRead_step s r
   have s2 := parseResp_step s (autoRead s r).1
   have st := s1.trans s2
@@ -470,10 +479,20 @@ theorem rebind_step (s : Stack) (r : Resp) : Step r.err (rebind s r).seen (raise
       exact parseBody_ret_respErr _ e he
     rw [this]; exact st
   · rename_i he
-    simp only [StepOut.seen, StepOut.evs, raisedOf_cons_resend, raisedOf_append, Option.bind_some]
-    have : (parseResp s (autoRead s r).1).resp.err = parsedErr (parseResp s (autoRead s r).1) := by
+    have hpe : (parseResp s (autoRead s r).1).resp.err = parsedErr (parseResp s (autoRead s r).1) := by
       unfold parsedErr; rw [he]
-    rw [this]; exact st
+    split
+    · split
+      · rename_i e hse
+        simp only [StepOut.seen, StepOut.evs, raisedOf_cons_resend, raisedOf_append, Option.bind_some,
+          raisedOf_cons_raised, raisedOf_nil]
+        rw [hpe]
+        have := st.trans (Step.orE_raise (parsedErr (parseResp s (autoRead s r).1)) e)
+        simpa [List.append_assoc] using this
+      · simp only [StepOut.seen, StepOut.evs, raisedOf_cons_resend, raisedOf_append, Option.bind_some]
+        rw [hpe]; exact st
+    · simp only [StepOut.seen, StepOut.evs, raisedOf_cons_resend, raisedOf_append, Option.bind_some]
+      rw [hpe]; exact st
 
 theorem digestResend_step (fx : Fixes) (hfx : fx.digestRebind = true) (s : Stack) (a : Nat) (r : Resp) (re : TOut)
     (hr : r.err = none) :
@@ -484,7 +503,7 @@ theorem digestResend_step (fx : Fixes) (hfx : fx.digestRebind = true) (s : Stack
     exact Step.raise _ _
   | resp h =>
     simp only [digestResend, hfx, if_true]
-    have := rebind_step s { r with http := some h, tag := 2 * a + 1 }
+    have := rebind_step s a { r with http := some h, tag := 2 * a + 1 }
     exact this
 
 theorem forget_err (fx : Fixes) (r : Resp) : (forget fx r).err = r.err := by
